@@ -241,6 +241,30 @@ func (fv *FV) execGhost(st *State, g *GhostStmt, pos token.Pos) {
 			key := "F:" + shortPkg(pkgPathOf(named.Obj())) + "." + named.Obj().Name() + "." + l.Name + "$ghost"
 			v, _ = fv.coerce(v, t)
 			fv.heapSet(st, key, sto(fv.heapGet(st, key), p.S, v.S))
+		case *SCall:
+			// ghost every(x.f) = lambda y *T :: e — the ghost field f of every object at once (a spine of a tree
+			// loses a key): the new field array is the lambda's array
+			if l.Fn == "every" && len(l.Args) == 1 {
+				if fl, ok := l.Args[0].(*SField); ok {
+					p := fv.spec(env, fl.X)
+					if isUserByRef(p.T) {
+						p.T = types.NewPointer(p.T)
+					}
+					if pt, ok := p.T.Underlying().(*types.Pointer); ok {
+						named, _ := structOf(pt.Elem())
+						if gt := fv.ghostField(named, fl.Name); gt != "" {
+							fv.ghostFieldTerm(st, named, fl.Name, gt, p)
+							key := "F:" + shortPkg(pkgPathOf(named.Obj())) + "." + named.Obj().Name() + "." + fl.Name + "$ghost"
+							if v.Sort != fv.compSort[key] {
+								fv.sfail("ghost every(%s) = …: the right-hand side has sort %s, the field array has %s", specString(fl), v.Sort, fv.compSort[key])
+							}
+							fv.heapSet(st, key, v.S)
+							return
+						}
+					}
+				}
+			}
+			fv.sfail("ghost assignment target %s", specString(g.LHS))
 		default:
 			fv.sfail("ghost assignment target %s", specString(g.LHS))
 		}
